@@ -404,7 +404,7 @@ def compare_T(line, obs, exp, res, count):
 
 def run_lines(drv, orc, lines):
     groups = [("C 1", lines[i:i + 40]) for i in range(0, len(lines), 40)]
-    obs = core.run_grouped_parallel(drv, groups, timeout=90, max_restarts=6)      # a hang of the implementation is reported as DIED
+    obs = core.run_grouped_parallel(drv, groups, timeout=1200, max_restarts=6, cpu=90)      # a hang of the implementation is reported as DIED
     exp = core.run_grouped_parallel(orc, groups, timeout=600)
     o = [a for (_, ans) in obs for a in ans]
     e = [a for (_, ans) in exp for a in ans]
